@@ -527,6 +527,8 @@ class PipeSpec(SeqSpec):
         domain = documented_domain(pipe)
         faulty = has_faults(pipe)
         expired = any(s[0] == "next" and s[1] is False for s in prog.get("steps", [])) or ("reduce" in prog and not prog.get("live", True))
+        if obs.get("aux", {}).get("args_intact") is False:
+            fails.append(("argument-slice-modified", "a slice passed as the variadic argument of Join was modified by the library (an element replaced)"))
         if any(r[0] in ("bad",) for r in results):
             fails.append(("bad-observation", "the harness could not observe a result: %r" % results))
         # ---- C07: documented sequence / reducers / sticky end (failure-free, documented parameter domain)
